@@ -262,18 +262,25 @@ def isDiagonal [LT K] [DecidableLT K] (axes : List (List K)) : Bool :=
       | some x => decide (¬ (x < ((0 : Nat) : K)) ∧ ¬ (((0 : Nat) : K) < x))
       | none => false
 
-/-- `np.linalg.norm(axis)`. -/
-def vecNorm (v : List K) : K := Elem.sqrt (sumK (v.map fun x => x * x))
-
 inductive Which | closest | origin
   deriving DecidableEq
 
+/-- `np.diagonal(axes)`: the signed step of every axis. -/
+def diagonal (axes : List (List K)) : List K :=
+  (List.range axes.length).filterMap fun i => match axes[i]? with
+    | some r => r[i]?
+    | none => none
+
+/-- `np.clip(c, 0, s - 1)` on an integer-valued entry: `minimum(maximum(c, 0), s − 1)`. -/
+def clipIdx (c : Int) (s : Nat) : Int := min (max c 0) ((s : Int) - 1)
+
 /-- `UniformGrid.closest_point(point, which)`; the result is the (integer valued) number the
-code returns. No range check and no clipping — as coded. -/
+code returns: quotient by the *signed* diagonal step, `floor`/`rint`, clipped to `[0, sᵢ−1]`,
+then the generated stride code. -/
 def closestPoint [LT K] [DecidableLT K] [Rounding K] (origin : List K) (axes : List (List K))
     (shape : List Nat) (point : List K) (which : Option Which) : Py Int := do
   if ¬ isDiagonal axes then throw .valueError
-  let steps := axes.map vecNorm
+  let steps := diagonal axes
   let coord ← (List.range shape.length).mapM fun i =>
     match (point[i]?), (origin[i]?), (steps[i]?) with
     | some p, some o, some s => pure ((p - o) / s)
@@ -282,6 +289,7 @@ def closestPoint [LT K] [DecidableLT K] [Rounding K] (origin : List K) (axes : L
     | some .origin => pure (coord.map Rounding.floorI)
     | some .closest => pure (coord.map Rounding.rintI)
     | none => throw PyErr.valueError
+  let ic := List.zipWith clipIdx ic shape
   Gen.CubicIndex.coordinatesToIndex shape.length (shape.map Int.ofNat) 0 ic
 
 /-! ### interpolation -/
@@ -298,6 +306,32 @@ def flatIndex (shape : List Nat) (c : List Nat) : Py Nat := do
 /-- Python slice `l[a:b]` for `0 ≤ a, b`. -/
 def slice {α} (l : List α) (a b : Nat) : List α := (l.drop a).take (b - a)
 
+/-- `range(1, s-2)` / `np.arange(1, s-2)`: the node indices `1 … s−3` used on an axis with `s` points. -/
+def innerIdx (s : Nat) : List Nat := (List.range (s - 2)).drop 1
+
+/-- column `d` of some rows (`points[..., d]`), `IndexError` when a row is too short. -/
+def interpCol (rows : List (List K)) (d : Nat) : Py (List K) :=
+  rows.mapM fun r => match r[d]? with | some x => pure x | none => throw PyErr.indexError
+
+/-- `points[idx]` for a list of row indices. -/
+def interpRows (points : List (List K)) (idx : List Nat) : Py (List (List K)) :=
+  idx.mapM fun n => match points[n]? with | some r => pure r | none => throw PyErr.indexError
+
+/-- `z_spline(z, x_index, y_index)`: spline over the slice `[idx(x,y,1) : idx(x,y,s₂−2)]`. -/
+def zSpline (I : Interp1 K) (shape : List Nat) (points : List (List K)) (values : List K)
+    (s2 nuz : Nat) (z : K) (xi yj : Nat) : Py K := do
+  let small ← flatIndex shape [xi, yj, 1]
+  let large ← flatIndex shape [xi, yj, s2 - 2]
+  let nodes ← interpCol (slice points small large) 2
+  pure (I nodes (slice values small large) nuz z)
+
+/-- `y_splines(y, x_index, z)`: spline over the rows `arange(1, s₁−2)·s₂` of the z-splines. -/
+def ySpline (I : Interp1 K) (shape : List Nat) (points : List (List K)) (values : List K)
+    (s1 s2 nuy nuz : Nat) (y z : K) (xi : Nat) : Py K := do
+  let nodes ← interpCol (← interpRows points ((innerIdx s1).map (· * s2))) 1
+  let vals ← (innerIdx s1).mapM fun yj => zSpline I shape points values s2 nuz z xi yj
+  pure (I nodes vals nuy y)
+
 /-- `interpolate(..., method="cubic", use_log=False)` at one query point, as coded: splines over
 the node indices `1 .. s−3` of each axis (`arange(1, s−2)` / slice `[idx(…,1) : idx(…,s₂−2)]`),
 nested along z, then y, then x. -/
@@ -306,22 +340,9 @@ def interpCubic (I : Interp1 K) (shape : List Nat) (points : List (List K)) (val
   match shape with
   | [s0, s1, s2] => do
     if values.length ≠ s0 * s1 * s2 then throw .valueError
-    let inner (s : Nat) : List Nat := (List.range (s - 2)).drop 1   -- range(1, s-2)
-    let col (rows : List (List K)) (d : Nat) : Py (List K) :=
-      rows.mapM fun r => match r[d]? with | some x => pure x | none => throw PyErr.indexError
-    let rowsAt (idx : List Nat) : Py (List (List K)) :=
-      idx.mapM fun n => match points[n]? with | some r => pure r | none => throw PyErr.indexError
-    let zSpline (xi yj : Nat) : Py K := do
-      let small ← flatIndex shape [xi, yj, 1]
-      let large ← flatIndex shape [xi, yj, s2 - 2]
-      let nodes ← col (slice points small large) 2
-      pure (I nodes (slice values small large) nu.2.2 p.2.2)
-    let ySpline (xi : Nat) : Py K := do
-      let nodes ← col (← rowsAt ((inner s1).map (· * s2))) 1
-      let vals ← (inner s1).mapM fun yj => zSpline xi yj
-      pure (I nodes vals nu.2.1 p.2.1)
-    let nodes ← col (← rowsAt ((inner s0).map (· * s1 * s2))) 0
-    let vals ← (inner s0).mapM fun xi => ySpline xi
+    let nodes ← interpCol (← interpRows points ((innerIdx s0).map (· * s1 * s2))) 0
+    let vals ← (innerIdx s0).mapM fun xi =>
+      ySpline I shape points values s1 s2 nu.2.1 nu.2.2 p.2.1 p.2.2 xi
     pure (I nodes vals nu.1 p.1)
   | _ => throw .notImplemented
 
